@@ -53,6 +53,12 @@ let f _id vs =
                | None -> ());
               let where = Printf.sprintf "%s#r%d@%s" (obj_s o) (int_of_n rel) (subj_s subj) in
               let in_model = match impl_aout impl with Some a -> List.mem a oset | None -> false in
+              (* Check/V1.v reads all userset restrictions of a relation through ONE condition filter;
+                 checkDirectUsersetTuples gives every weight-2-eligible userset type its own iterator and
+                 filter.  The two differ only in whether an evaluation error that the single filter swallows
+                 (a valid tuple of ANOTHER userset type passed) surfaces: a condition error is therefore an
+                 outcome of the code exactly when the model's own swallow trigger fired on this request. *)
+              let in_model = in_model || (impl = 3 && tr.tr_swallow) in
               let fuel_out = List.mem AFuel oset in
               (* decision-level agreement with the reference semantics *)
               let wrong =
